@@ -2269,3 +2269,21 @@ func (a *A) calledOnlyFrom(fn, host *ssa.Function) bool {
 	}
 	return true
 }
+
+// allInstrsOf: the instructions of fn as a slice (nil-safe).
+func allInstrsOf(fn *ssa.Function) []ssa.Instruction {
+	var out []ssa.Instruction
+	if fn == nil {
+		return nil
+	}
+	for _, b := range fn.Blocks {
+		out = append(out, b.Instrs...)
+	}
+	return out
+}
+
+// isConstInt: v is the integer constant k.
+func isConstInt(v ssa.Value, k int64) bool {
+	c, ok := v.(*ssa.Const)
+	return ok && c.Value != nil && c.Value.Kind() == constant.Int && c.Int64() == k
+}
